@@ -7,6 +7,13 @@ use std::sync::Arc;
 
 pub const BASE: &str = "2000-01-01T00:00:00";
 
+pub static LAST_PANIC: std::sync::Mutex<String> = std::sync::Mutex::new(String::new());
+
+/// `#panic <location> <message>` — informational line (ignored by the comparator)
+pub fn panic_note() -> String {
+    format!("#panic {}", LAST_PANIC.lock().unwrap())
+}
+
 pub fn guarded<T>(f: impl FnOnce() -> T) -> Result<T, ()> {
     catch_unwind(AssertUnwindSafe(f)).map_err(|_| ())
 }
@@ -65,4 +72,17 @@ pub fn opt<T: std::fmt::Display>(o: Option<T>) -> String {
         Some(x) => format!("{}", x),
         None => "-".to_string(),
     }
+}
+
+/// depot index -> location for the real depots (the HashMap-order oracle when depots are defaulted)
+pub fn perm_line(nw: &Network) -> String {
+    let mut depots: Vec<_> = nw.depots_iter().collect();
+    depots.sort();
+    let (od, _, _) = nw.overflow_depot_idxs();
+    let v: Vec<String> = depots
+        .iter()
+        .filter(|d| **d != od)
+        .map(|d| loc(nw.get_depot(*d).location()))
+        .collect();
+    format!("perm {}", v.join(" "))
 }
